@@ -62,6 +62,24 @@ theorem settled_exact {K : Bool} {s : Ch} (h : Reach K s) (hjobs : s.jobs = []) 
   have := hi.covered hs (Or.inl hempty)
   simp [hjobs] at this
 
+/-- a settled channel without subscribers is literally in the initial state (in particular
+`mapChannels[ch]` has been deleted again).  Hence the kind of a channel may change at such a point:
+what follows is a run from `init` with the other kind and all theorems apply to it with the new `K`.
+(A stale `mapChannels` entry would make the next epoch's job unsubscribe the wrong broker.) -/
+theorem settled_empty_eq_init {K : Bool} {s : Ch} (h : Reach K s) (hsubs : s.subs = []) (hjobs : s.jobs = [])
+    (hfree : s.lock = .free) : s = init := by
+  have hi := reach_inv h
+  have h1 := hi.hubMap_empty hsubs
+  have h2 : served s K = false := by
+    cases hs : served s K with
+    | false => rfl
+    | true => have := hi.covered hs (Or.inl hsubs); simp [hjobs] at this
+  have h3 := hi.other
+  obtain ⟨subs, hubMap, subStream, subMap, jobs, lock⟩ := s
+  simp only at hsubs hjobs hfree h1
+  subst hsubs hjobs hfree h1
+  cases K <;> simp [served] at h2 h3 <;> simp [init, h2, h3]
+
 /-- a broker subscription without local subscribers is always covered by a pending job of the
 channel's kind (this is what the failed-Subscribe rollback and the "empty" return of `removeSub`
 maintain), so it cannot be forgotten. -/
